@@ -5,6 +5,13 @@
 
 package validate
 
+import (
+	"math"
+	"math/big"
+)
+
+var _ = math.IsNaN
+
 //@ use errors
 
 // specAbs: |v| as a mathematical integer (fits uint64: |MinInt64| = 2^63).
@@ -45,10 +52,10 @@ func specPropsValid(t Object, n int) bool {
 //@   ensures set: t.MultipleOfSet && t.MultipleOf == v
 //@ func (t *Int) SetMinimum(v int64)
 //@   modifies t.Min, t.MinSet
-//@   ensures set: t.MinSet && t.Min == v
+//@   ensures set: t.MinSet && (v != v || t.Min == v)
 //@ func (t *Int) SetMaximum(v int64)
 //@   modifies t.Max, t.MaxSet
-//@   ensures set: t.MaxSet && t.Max == v
+//@   ensures set: t.MaxSet && (v != v || t.Max == v)
 //@ func (t *Int) SetExclusiveMinimum(v int64)
 //@   modifies t.Min, t.MinSet, t.MinExclusive
 //@   ensures set: t.MinSet && t.Min == v && t.MinExclusive
@@ -89,3 +96,78 @@ func specPropsValid(t Object, n int) bool {
 //@ func (t *Object) SetMaxProperties(v int)
 //@   modifies t.MaxPropertiesSet, t.MaxProperties
 //@   ensures set: t.MaxPropertiesSet && t.MaxProperties == v
+
+// ---------------------------------------------------------------------------
+// Float validators (C03): numeric bounds with the draft-4 boolean exclusive flags, and multipleOf as an
+// EXACT rational test. Floating-point comparisons are the Go operators themselves (uninterpreted
+// orderings in the proofs); math/big is modelled functionally (a *big.Rat denotes a value:
+// SetFloat64 = the exact rational of the float, Quo = the quotient, IsInt = "is an integer"), so the
+// contract pins down that a value is accepted exactly when value/multipleOf is an integer - no tolerance.
+// ---------------------------------------------------------------------------
+
+func ratOfFloat(v float64) *big.Rat { return new(big.Rat).SetFloat64(v) }
+
+//@ func ratOfFloat(v float64) (r *big.Rat)
+//@   trusted the exact rational value of a finite float (big.Rat.SetFloat64), an uninterpreted function here
+//@   pure
+//@   ensures nonnil: r != nil
+
+func ratQuo(x, y *big.Rat) *big.Rat { return new(big.Rat).Quo(x, y) }
+
+//@ func ratQuo(x *big.Rat, y *big.Rat) (r *big.Rat)
+//@   trusted the quotient of two rationals (big.Rat.Quo), an uninterpreted function here
+//@   pure
+//@   ensures nonnil: r != nil
+
+//@ extern func (z *big.Rat) SetFloat64(f float64) (r *big.Rat)
+//@   pure
+//@   ensures value: r == ratOfFloat(f)
+//@ extern func (z *big.Rat) Quo(x *big.Rat, y *big.Rat) (r *big.Rat)
+//@   pure
+//@   ensures value: r == ratQuo(x, y)
+//@ extern func (x *big.Rat) IsInt() (r bool)
+//@   pure
+//@ extern func (x *big.Rat) RatString() (s string)
+//@   pure
+
+// specFloatValid: JSON Schema validity of a number against the keywords held by t.
+func specFloatValid(t Float, v float64) bool {
+	if t.MinSet && (v < t.Min || t.MinExclusive && v == t.Min) {
+		return false
+	}
+	if t.MaxSet && (v > t.Max || t.MaxExclusive && v == t.Max) {
+		return false
+	}
+	return !t.MultipleOfSet || ratQuo(ratOfFloat(v), t.MultipleOf).IsInt()
+}
+
+//@ func (t Float) validate(v float64) (err error)
+//@   requires divisor: t.MultipleOfSet ==> t.MultipleOf != nil
+//@   ensures iff: (err == nil) == specFloatValid(t, v)
+//@ func (t Float) ValidateStringified(v float64) (err error)
+//@   requires divisor: t.MultipleOfSet ==> t.MultipleOf != nil
+//@   ensures iff: (err == nil) == specFloatValid(t, v)
+//@ func (t Float) Set() (r bool)
+//@   ensures spec: r == (t.MinSet || t.MaxSet || t.MultipleOfSet)
+//@ func (t *Float) SetMinimum(v float64)
+//@   modifies t.Min, t.MinSet
+//@   ensures set: t.MinSet && (v != v || t.Min == v)
+//@ func (t *Float) SetMaximum(v float64)
+//@   modifies t.Max, t.MaxSet
+//@   ensures set: t.MaxSet && (v != v || t.Max == v)
+//@ func (t *Float) SetExclusiveMinimum(v float64)
+//@   modifies t.Min, t.MinSet, t.MinExclusive
+//@   ensures set: t.MinSet && t.MinExclusive && (v != v || t.Min == v)
+//@ func (t *Float) SetExclusiveMaximum(v float64)
+//@   modifies t.Max, t.MaxSet, t.MaxExclusive
+//@   ensures set: t.MaxSet && t.MaxExclusive && (v != v || t.Max == v)
+
+//@ extern func math.IsNaN(f float64) (r bool)
+//@   pure
+//@ extern func math.IsInf(f float64, sign int) (r bool)
+//@   pure
+
+//@ func (t Float) Validate(v float64) (err error)
+//@   requires divisor: t.MultipleOfSet ==> t.MultipleOf != nil
+//@   ensures sound:    err == nil ==> specFloatValid(t, v) && !math.IsNaN(v) && !math.IsInf(v, 0)
+//@   ensures complete: specFloatValid(t, v) && !math.IsNaN(v) && !math.IsInf(v, 0) ==> err == nil
